@@ -6,6 +6,7 @@ import (
 	"errors"
 	"fmt"
 	"math/rand/v2"
+	"time"
 
 	blocks "github.com/ipfs/go-block-format"
 	"github.com/ipfs/go-cid"
@@ -26,7 +27,7 @@ func init() {
 		Level: "exploration",
 		Cases: func(tier string) int { return tierN(tier, 4000, 80000) },
 		Run:   runC15,
-		Rule: "case = sequential history of 60-140 blockstore calls (Put, PutMany, Get, Has, GetSize, DeleteBlock, HashOnRead toggles) over 8-30 blocks of sizes {0,1,31,32,100,4096,~70KiB} hashed with sha2-256, sha2-512 (a third of them truncated to 16/20/28 bytes), blake2b-256 or identity, addressed through CIDv0/v1 x raw/dag-pb/dag-cbor aliases, plus deliberately mismatching (CID, bytes) pairs; every method is also called with a cancelled context; IndexBitSize(8) so real hashes share buckets; in a third of the cases the primary file-size limit equals the exact total size of the first 2-4 records, which are stored first; compared call by call with a reference map keyed by multihash and the expected error classes; " +
+		Rule: "case = sequential history of 60-140 blockstore calls (Put, PutMany, Get, Has, GetSize, DeleteBlock, HashOnRead toggles) over 8-30 blocks of sizes {0,1,31,32,100,4096,~70KiB} hashed with sha2-256, sha2-512 (a third of them truncated to 16/20/28 bytes), blake2b-256 or identity, addressed through CIDv0/v1 x raw/dag-pb/dag-cbor aliases, plus deliberately mismatching (CID, bytes) pairs; every method is also called with a cancelled context; IndexBitSize(8) so real hashes share buckets; in a third of the cases the primary file-size limit equals the exact total size of the first 2-4 records, which are stored first; compared call by call with a reference map keyed by multihash and the expected error classes. Serviced variant (case index mod 3 == 2): the periodic flusher runs at 1 ms and the history contains settle steps (wait, by hook counters, until a flush that began after the step has completed), after each of which every block is read again, and restarts (Close + OpenHashedBlockstore); in half of these the background collectors run at 2 ms on 2 KiB primary files and the history ends with a mass delete (80 fresh blocks, all deleted but two adjacent ones in every run of 26), several collector cycles, and a complete re-read with hash-on-read enabled; " +
 			"non-trivial iff the run exercised a cancelled-context call, an alias lookup, a wrong-hash probe with the flag on and with it off, a delete and an empty block; distinct = hash of the call list",
 		Assumptions: []string{
 			"multihash digests >= 4 bytes (identity-hashed blocks have >= 4 bytes)",
@@ -143,18 +144,59 @@ func runC15(c run.Ctx) *core.CaseResult {
 			res.Flag("exact-fit-prologue")
 		}
 	}
+	// serviced variant (a third of the cases): the periodic flusher runs at 1 ms, the history contains
+	// 'settle' steps (wait, by hook counters, for a flush that began after the step) and restarts; half of
+	// those also run the background collectors at 2 ms on 2 KiB primary files and end with a mass delete
+	serviced := c.Index%3 == 2
+	withGC := c.Index%6 == 5
+	if withGC && prologue == 0 {
+		env.Cfg.PrimaryFileSize = 2048
+		cfg.PrimaryFileSize = 2048
+	}
 	var opts []store.Option
 	opts = append(opts, env.Options()...)
+	if serviced {
+		opts = append(opts, store.SyncInterval(time.Millisecond))
+		res.Flag("serviced")
+	}
+	if withGC {
+		opts = append(opts, store.GCInterval(2*time.Millisecond))
+		res.Flag("collectors-running")
+	}
 	bs, err := storethehash.OpenHashedBlockstore(context.Background(), env.IndexPath, env.DataPath, opts...)
 	if err != nil {
 		res.Violate("open-error", "c15-open-error", 0, nil, "OpenHashedBlockstore failed: %v", err)
 		return res
 	}
-	started := r.IntN(2) == 0
+	started := r.IntN(2) == 0 || serviced
 	if started {
 		bs.Start()
 	}
-	defer bs.Close()
+	defer func() { bs.Close() }()
+	// settle: a flush that began after this point has completed (the flusher's flushes are sequential)
+	settle := func() bool {
+		e0 := rt.Count("store.flush.entry")
+		for i := 0; i < 6000; i++ {
+			if rt.Count("store.flush.no-work")+rt.Count("store.flush.notice-closed") >= e0+1 {
+				res.Add("settles", 1)
+				return true
+			}
+			time.Sleep(500 * time.Microsecond)
+		}
+		res.Add("settle_timeouts", 1)
+		return false
+	}
+	gcCycles := func(n int64) bool {
+		c0 := rt.Count("mh.gc.cycle.start")
+		for i := 0; i < 6000; i++ {
+			if rt.Count("mh.gc.cycle.start") >= c0+n+1 {
+				return true
+			}
+			time.Sleep(500 * time.Microsecond)
+		}
+		res.Add("gc_wait_timeouts", 1)
+		return false
+	}
 
 	live := context.Background()
 	dead, cancel := context.WithCancel(context.Background())
@@ -234,6 +276,31 @@ func runC15(c run.Ctx) *core.CaseResult {
 			}
 			useDead := r.IntN(6) == 0
 			x := r.IntN(100)
+			if serviced && step%9 == 4 {
+				// (PRNG stream untouched: the step number decides)
+				if step%27 == 13 {
+					calls = append(calls, "restart")
+					bs.Close()
+					nbs, err := storethehash.OpenHashedBlockstore(context.Background(), env.IndexPath, env.DataPath, opts...)
+					if err != nil {
+						viol("reopen-error", "OpenHashedBlockstore after Close failed: %v", err)
+						return
+					}
+					bs = nbs
+					bs.Start()
+					hashOnRead = false // a new adapter starts with the check off
+					res.Add("restarts", 1)
+					res.Flag("restarted")
+				} else {
+					calls = append(calls, "settle")
+					settle()
+				}
+				// everything must read the same afterwards
+				for i := range blks {
+					checkGet(&blks[i], blks[i].aliases[0])
+					checkHasSize(&blks[i], blks[i].aliases[0])
+				}
+			}
 			switch {
 			case x < 25: // Put
 				blk, _ := blocks.NewBlockWithCid(b.data, a)
@@ -360,6 +427,48 @@ func runC15(c run.Ctx) *core.CaseResult {
 				checkHasSize(&u, u.aliases[0])
 				res.Add("unknown_cid_probes", 1)
 			}
+		}
+		if withGC {
+			// mass delete: 80 fresh 40-byte blocks, all deleted but two adjacent ones in every run of 26, so that
+			// every primary file they fill is > 85% free with two live records: the collector drains such files
+			base := len(blks)
+			for i := 0; i < 80; i++ {
+				b := c15MakeBlock(r, 40, uint64(700000+i))
+				blks = append(blks, b)
+			}
+			for i := base; i < len(blks); i++ {
+				blk, _ := blocks.NewBlockWithCid(blks[i].data, blks[i].aliases[0])
+				if err := bs.Put(live, blk); err != nil {
+					viol("put-error", "Put(%s) failed: %v", blks[i].aliases[0], err)
+				}
+				if _, ok := model[string(blks[i].mh)]; !ok {
+					model[string(blks[i].mh)] = &blks[i]
+				}
+			}
+			calls = append(calls, "mass-put(80)")
+			settle()
+			for i := base; i < len(blks); i++ {
+				if (i-base)%26 > 1 {
+					if err := bs.DeleteBlock(live, blks[i].aliases[0]); err != nil {
+						viol("delete-error", "DeleteBlock(%s) failed: %v", blks[i].aliases[0], err)
+					}
+					delete(model, string(blks[i].mh))
+				}
+			}
+			calls = append(calls, "mass-delete(74)")
+			r0 := rt.Count("mh.gc.relocate.after-put")
+			for i := 0; i < 4; i++ {
+				settle()
+				gcCycles(2)
+			}
+			settle()
+			res.Add("records_relocated_by_background_gc", rt.Count("mh.gc.relocate.after-put")-r0)
+			if rt.Count("mh.gc.relocate.after-put") > r0 {
+				res.Flag("gc-relocated")
+			}
+			hashOnRead = true
+			bs.HashOnRead(true)
+			calls = append(calls, "hashonread(true)")
 		}
 		// final: every block through every alias
 		for i := range blks {
